@@ -65,6 +65,10 @@ func (er *entryReaderImpl) Read(now time.Time) ([]*entry, error) {
 	addEntriesFn := func(workflow *dag.DAG, s []dag.Schedule, e entryType) {
 		for _, ss := range s {
 			next := ss.Parsed.Next(now)
+			if next.IsZero() {
+				// the expression names a date that never comes
+				continue
+			}
 			entries = append(entries, &entry{
 				Next:      ss.Parsed.Next(now),
 				Job:       er.jobCreator.CreateJob(workflow, next),
